@@ -671,7 +671,7 @@ func (w *world) diffNames(got, want *config.Config) []string {
 
 func valueTags(kind, text string) []string {
 	if kind != "string" {
-		return nil
+		return typedValueTags(kind, text) // values_test.go
 	}
 	var t []string
 	if text == "" {
@@ -884,12 +884,12 @@ func (c *checker) runLoad(s spec) {
 		_, given := s.Flags[flag]
 		fv, inFile := s.File[n]
 		switch {
+		case s.FileMode == "full" && inFile && !(has && given) && l.Kind == "string" && writerMistypes(fv) != "":
+			patterns[writerMistypes(fv)] = true // values_test.go: the listed findings about what SaveAsYaml writes for some strings
 		case s.Driver == drvViperBound && has && !given && inFile && l.text(&o.got) == l.text(&c.w.defaults):
 			// the file names the leaf, its flag is registered but not given, and the loaded value is the flag's
 			// default (= the option's default, AddFlags takes it from DefaultConfig)
 			patterns["file-value-lost-to-default-of-unchanged-bound-flag"] = true
-		case s.FileMode == "full" && inFile && !(has && given) && l.Kind == "string" && yamlFloatLike(fv):
-			patterns["string-value-that-yaml-reads-as-float-written-unquoted"] = true
 		default:
 			explained = false
 		}
@@ -1303,6 +1303,7 @@ func TestCheck(t *testing.T) {
 		"a user writes a configuration file with the key names that SaveAsYaml shows (yaml tags); sparse files are written by the harness in plain block YAML with double-quoted strings",
 		"an application that owns a viper passes flags to LoadFromViper by BindPFlags(cmd.Flags()) (what a cobra/viper server context does)",
 		"a nil *InstrumentationConfig is not a configuration value (the section is always present in DefaultConfig); leaves are enumerated through the pointer",
+		"value domain: the boundary sets of values_test.go stand for 'all values of the field's type'; NaN and negative zero are left out (not equal to themselves / equal to +0), values are compared as values of the leaf's type (canonical text parsed with strconv/time), not as spellings",
 		"genesis equality: same chain id, initial height, proposer bytes (and nil-ness), same instant and same zone offset; offsets are whole minutes (RFC 3339)",
 		"Genesis.Save documents no validation, so for the invalid shapes either Save or LoadGenesis must refuse; hand-written invalid files must be refused by LoadGenesis",
 	}
@@ -1487,6 +1488,11 @@ func TestCheck(t *testing.T) {
 		}
 	}
 
+	// (5) the value domain of every leaf type (values_test.go): every leaf x every boundary value of its type x every path
+	vdStart := time.Now()
+	vd := c.valueDomain(drivers, capped)
+	vdWall := time.Since(vdStart).Seconds() // information only
+
 	// (3c) operation SEQUENCES on one home (resave_test.go): every ordered pair of a set of configurations that differ in
 	// serialized length and content, written one over the other with SaveAsYaml and through the init command's Load -> SaveAsYaml
 	resaveStart := time.Now()
@@ -1577,6 +1583,10 @@ func TestCheck(t *testing.T) {
 		Rule: "one evaluation = one (file, flags) case written to a fresh home and loaded through the real Load / LoadFromViper (or one genesis file saved and loaded); " +
 			"cases: per leaf {no file, sparse file, complete file} x {no flag, flag} x every value of the leaf's type incl. the default given explicitly; per registered flag alone; " +
 			"save->load of every single leaf, every pair of leaves and all leaves at once; " +
+			"value domain: for every leaf, every value of the boundary set of the leaf's type (durations: unit borders ns/us/ms/s/m/h, every combination of second, millisecond, microsecond and nanosecond components, 10000h, both ends of int64, negatives; " +
+			"integers: 0, 1, width borders 2^7..2^64, 2^53 and its neighbours, both ends; floats: 0, smallest/largest magnitudes, 17-significant-digit values, notation borders 1e-5/1e-4 and 1e20/1e21, integers beyond 2^53; " +
+			"strings: empty, spaces, every YAML indicator character alone and inside a value, quotes, non-ASCII, control characters, spellings of null/bool/int/float/timestamp; bools: both) through flag -> option, hand-written file -> option, flag over file, " +
+			"save -> load, save -> save -> load on one home and init -> init -> load (value given by flag to the init command's Load -> SaveAsYaml): save -> load through Load for every leaf (thorough: all six paths), all six paths through all three drivers for value_domain.all_drivers_leaves (the first leaf of each type with and without a flag); " +
 			"sequences on ONE home (one evaluation = one whole sequence): for every ordered pair (A,B) of the resave configuration set and every driver save(A) save(B) load, save(A) save(B) save(A) load, " +
 			"save(A) load save(B) load save(A) load, and load save(A) load; the same pairs of the flag-expressible subset through the configuration part of the `init` command (apps/*/cmd/init.go: Load -> SaveAsYaml) (init init load, init/load x3, save init load, init save load); " +
 			"for every ordered pair of the genesis resave set Save Save Load, Save Save Save Load and Load Save Load Save Load on one path; every load must return what the last write was given; genesis over chain ids x heights x times x addresses, all 15 combinations of the four invalid shapes and hand-made invalid files; " +
@@ -1589,9 +1599,10 @@ func TestCheck(t *testing.T) {
 			"resave_init_configurations_bytes": initLens, "resave_init_length_spread": lengthSpread(il),
 			"genesis_resave_set_bytes": genLens, "genesis_resave_length_spread": lengthSpread(gl),
 			"resave_sequences_by_shape": resaveByShape, "resave_init_sequences_not_judged_because_init_failed": c.initErrors,
+			"value_domain":        map[string]any{"leaves": vd.Leaves, "boundary_values_per_leaf_type": vd.ValuesPerKind, "new_cases_by_path": vd.CasesByPath, "all_drivers_leaves": vd.AllDriversLeaves},
 			"leaves_without_flag": noFlag, "leaves_not_in_file_by_tag": notInFile, "flags_naming_no_option": unnamed, "cases_by_kind": c.byKnd,
 		},
 		Extra: map[string]any{"flag_names": flagNames, "oracle_failures_by_clause_and_tags": c.tally, "observation_loads_that_mutated_package_defaults_by_leaf": c.mutated,
-			"resave_sequences_wall_seconds": resaveWall},
+			"resave_sequences_wall_seconds": resaveWall, "value_domain_wall_seconds": vdWall},
 	})
 }
